@@ -66,11 +66,11 @@ func init() {
 	reg("C13", "fault_enumeration", false, 150000, 45, 2000000, 240, 3)
 	reg("C05", "exploration", false, 250000, 45, 3000000, 240, 3)
 	reg("C06", "exploration", false, 80000, 45, 1000000, 240, 3)
-	reg("C10", "fault_enumeration", false, 200000, 45, 3000000, 240, 3)
+	reg("C10", "exploration", false, 200000, 45, 3000000, 240, 3)
 	reg("C07", "exploration", false, 200000, 45, 3000000, 240, 3)
 	reg("C08", "exploration", false, 100000, 45, 2000000, 240, 3)
 	reg("C17", "exploration", false, 300000, 45, 6000000, 200, 3)
-	reg("C19", "fault_enumeration", false, 80000, 45, 1000000, 240, 3)
+	reg("C19", "exploration", false, 80000, 45, 1000000, 240, 3)
 	reg("C20", "exploration", false, 150000, 45, 2000000, 240, 3)
 	reg("C04", "exploration", false, 250000, 45, 4000000, 240, 3)
 }
